@@ -28,7 +28,14 @@
 //!     for a read that hits the page cache, which is only possible for a page
 //!     touched by an earlier submitted read/write;
 //!   * a dropped ring takes its unfinished entries with it (nothing can be
-//!     observed any more; they must not surface anywhere else).
+//!     observed any more; they must not surface anywhere else);
+//!   * the ring only sees a raw fd: whatever access mode the handle was opened
+//!     with (read / write / append in any combination `OpenOptions` accepts,
+//!     O_DIRECT, any legal creation flags, directly or through `try_clone`),
+//!     the ring op does what `read_at` / `write_at` at the same offset does
+//!     on an identically opened handle of the twin — same byte count and file
+//!     effect when the synchronous call succeeds, `-EBADF` and no effect when
+//!     it is refused for the access mode.
 
 use crate::engine::{pick, replay_as, Ctx, Outcome, Tier};
 use proptest::prelude::*;
@@ -60,6 +67,9 @@ const SENTINEL: u8 = 0xA5;
 const HIT_NS: u64 = 100;
 const BASE_NS: u64 = 1_000_000_000;
 const MODE_DIRECT: u8 = 4;
+const MODE_APPEND: u8 = 8;
+const MODE_CREATION_SHIFT: u8 = 4;
+const MODE_CLONE: u8 = 64;
 
 // ───────────────────────── scenario ─────────────────────────
 
@@ -136,6 +146,9 @@ pub enum Act {
     /// sync, take k1, advance the clock, take k2 more from the same handle
     DrainSplit { ring: u8, k1: u8, dt: Dt, k2: u8 },
     ShimWrite { file: u8, off: u16, len: u8, fill: u8 },
+    /// `std::io::Write::write` through the handle: appends on an append-mode
+    /// handle, writes at the handle's cursor otherwise (same call on the twin)
+    ShimAppend { file: u8, len: u8, fill: u8 },
     ShimSync { file: u8 },
     Close { file: u8 },
     Reopen { file: u8 },
@@ -163,9 +176,12 @@ pub struct Scenario {
     /// per file: (initial content length, fill, made durable before the run)
     pub files: Vec<(u8, u8, bool)>,
     pub acts: Vec<Act>,
-    /// per file, the kind of handle used for ring ops: bits 0-1 access mode (0
-    /// read+write, the only one the generator produces; 1 read-only, 2
-    /// write-only: probe F-C18-1), bit 2 O_DIRECT
+    /// per file, the kind of handle used for ring ops (see `open_mode`): bits
+    /// 0-1 read/write access (0 read+write, 1 read, 2 write, 3 neither: only
+    /// together with append), bit 2 O_DIRECT, bit 3 append, bits 4-5 creation
+    /// variant (0 `create` where the access mode allows it, 1 open an existing
+    /// file without `create`, 2 `create` + `truncate`, 3 `create_new` on a free
+    /// name), bit 6 the handle is a `try_clone` of the opened one
     #[serde(default)]
     pub modes: Vec<u8>,
 }
@@ -298,19 +314,71 @@ fn open_rw(path: &str) -> std::io::Result<sfs::File> {
     sfs::OpenOptions::new().read(true).write(true).create(true).open(path)
 }
 
-/// mode & 3 = 0: read+write, 1: read-only, 2: write-only (always `create`);
-/// mode & 4: O_DIRECT (the configured alignment is 1, so nothing is misaligned)
+/// (read, write, append) of a mode byte.  Every combination std's
+/// `OpenOptions` accepts is reachable: read+write, read, write, and each of
+/// them (and "neither") together with append.
+fn access_of(mode: u8) -> (bool, bool, bool) {
+    let append = mode & MODE_APPEND != 0;
+    match (mode & 3, append) {
+        (1, _) => (true, false, append),
+        (2, _) => (false, true, append),
+        (3, true) => (false, false, true),
+        // "neither" without append is not an access mode: read+write
+        _ => (true, true, append),
+    }
+}
+
+fn mode_name(mode: u8) -> &'static str {
+    match access_of(mode) {
+        (true, true, false) => "read+write",
+        (true, false, false) => "read-only",
+        (false, true, false) => "write-only",
+        (false, false, true) => "append-only",
+        (true, false, true) => "read+append",
+        (false, true, true) => "write+append",
+        (true, true, true) => "read+write+append",
+        (false, false, false) => unreachable!("access_of never yields no access"),
+    }
+}
+
+/// Open `path` the way the mode byte says (see `Scenario::modes`).  The
+/// configured O_DIRECT alignment is 1, so nothing is misaligned.  The options
+/// are always a combination std accepts (creation flags need write or append,
+/// truncate needs write without append unless `create_new` is set); where the
+/// requested creation variant is not legal for the access mode the file is
+/// created beforehand through a read+write handle and opened without flags.
 fn open_mode(path: &str, mode: u8) -> std::io::Result<sfs::File> {
     let direct = mode & MODE_DIRECT != 0;
-    match mode & 3 {
-        1 => {
-            // make sure the file exists, then open it read-only
-            drop(open_rw(path)?);
-            sfs::OpenOptions::new().read(true).direct_io(direct).open(path)
+    let (read, write, append) = access_of(mode);
+    let mut o = sfs::OpenOptions::new();
+    o.read(read).write(write).append(append).direct_io(direct);
+    let precreate = |path: &str| open_rw(path).map(drop);
+    match ((mode >> MODE_CREATION_SHIFT) & 3, write || append) {
+        (1, _) | (_, false) => precreate(path)?,
+        (2, true) if write && !append => {
+            o.create(true).truncate(true);
         }
-        2 => sfs::OpenOptions::new().write(true).create(true).direct_io(direct).open(path),
-        _ => sfs::OpenOptions::new().read(true).write(true).create(true).direct_io(direct).open(path),
+        (3, true) => {
+            // create_new needs a free name
+            match sfs::remove_file(path) {
+                Ok(()) => {}
+                Err(e) if e.kind() == std::io::ErrorKind::NotFound => {}
+                Err(e) => return Err(e),
+            }
+            o.create_new(true).truncate(true);
+        }
+        _ => {
+            o.create(true);
+        }
     }
+    let f = o.open(path)?;
+    if mode & MODE_CLONE != 0 {
+        // the ring gets the fd of a duplicate; the original is closed first
+        let c = f.try_clone()?;
+        drop(f);
+        return Ok(c);
+    }
+    Ok(f)
 }
 
 fn pattern(fill: u8, len: usize) -> Vec<u8> {
@@ -716,10 +784,16 @@ impl<'a> Interp<'a> {
                 let r = w.twin(|| tf.read_at(&mut tb, *off));
                 match r {
                     Ok(n) => {
+                        if self.files[slot].mode & MODE_APPEND != 0 {
+                            self.out.label("ring-read-on-append-mode-handle");
+                        }
                         if res != n as i32 {
                             self.out.fail(
                                 "differential: read result differs from read_at",
-                                format!("ring {ridx} ud {ud} {kind:?}: cqe {res}, read_at {n}"),
+                                format!(
+                                    "ring {ridx} ud {ud} {kind:?} ({} handle): cqe {res}, read_at {n}",
+                                    mode_name(self.files[slot].mode)
+                                ),
                             );
                         } else if *self.arena[*buf] != tb[..] {
                             self.out.fail(
@@ -729,7 +803,7 @@ impl<'a> Interp<'a> {
                         }
                     }
                     Err(e) if e.kind() == std::io::ErrorKind::PermissionDenied => {
-                        self.out.label("read-on-write-only-handle");
+                        self.out.label("read-on-handle-without-read-access");
                         if res >= 0 || self.arena[*buf].iter().any(|b| *b != SENTINEL) {
                             self.out.fail(
                                 "differential: ring read succeeded on a handle not opened for reading",
@@ -749,7 +823,18 @@ impl<'a> Interp<'a> {
             Kind::Write { off, buf, .. } => {
                 let r = w.twin(|| tf.write_at(&self.arena[*buf], *off));
                 let expect = match r {
-                    Ok(n) => n as i32,
+                    Ok(n) => {
+                        // an append-mode handle is writable with or without
+                        // `write(true)`; what a positional write does on it is
+                        // whatever `write_at` of the same-mode twin just did
+                        if self.files[slot].mode & MODE_APPEND != 0 {
+                            self.out.label("ring-write-on-append-mode-handle");
+                            if !access_of(self.files[slot].mode).1 {
+                                self.out.label("ring-write-on-append-handle-without-write-flag");
+                            }
+                        }
+                        n as i32
+                    }
                     Err(e) if e.to_string().contains("No space") => {
                         self.out.label("enospc");
                         ENOSPC
@@ -777,7 +862,10 @@ impl<'a> Interp<'a> {
                 if res != expect {
                     self.out.fail(
                         "differential: write result differs from write_at",
-                        format!("ring {ridx} ud {ud} {kind:?}: cqe {res}, write_at {expect}"),
+                        format!(
+                            "ring {ridx} ud {ud} {kind:?} ({} handle): cqe {res}, write_at {expect}",
+                            mode_name(self.files[slot].mode)
+                        ),
                     );
                 }
             }
@@ -1027,6 +1115,27 @@ impl<'a> Interp<'a> {
                 }
                 self.out.label("shim-write-interleaved");
             }
+            Act::ShimAppend { file, len, fill } => {
+                use std::io::Write;
+                let s = self.file_idx(*file);
+                if self.files[s].real.is_none() {
+                    return;
+                }
+                let data = pattern(*fill, *len as usize);
+                let (mut rf, mut tf) = (self.files[s].real.take().unwrap(), self.files[s].twin.take().unwrap());
+                let a = self.w.real(|| rf.write(&data)).map_err(|e| e.to_string());
+                let b = self.w.twin(|| tf.write(&data)).map_err(|e| e.to_string());
+                self.files[s].real = Some(rf);
+                self.files[s].twin = Some(tf);
+                if a != b {
+                    self.out.fail("harness: shim cursor write diverged between real and twin", format!("{a:?} vs {b:?}"));
+                }
+                self.out.label(if self.files[s].mode & MODE_APPEND != 0 {
+                    "shim-append-write-interleaved"
+                } else {
+                    "shim-cursor-write-interleaved"
+                });
+            }
             Act::ShimSync { file } => {
                 let s = self.file_idx(*file);
                 if self.files[s].real.is_none() {
@@ -1206,8 +1315,7 @@ pub fn run(sc: &Scenario) -> Outcome {
                 }
             }
         }
-        // continue with the handle kind the scenario asks for (O_DIRECT from
-        // the generator; read-only / write-only in probe scenarios only)
+        // continue with the handle kind the scenario asks for
         let mode = sc.modes.get(i).copied().unwrap_or(0);
         if mode != 0 {
             let (r, t) = (it.files[i].real.take(), it.files[i].twin.take());
@@ -1215,9 +1323,25 @@ pub fn run(sc: &Scenario) -> Outcome {
             it.w.twin(|| drop(t));
             it.files[i].mode = mode;
             it.open_file(i);
-            if mode & 3 != 0 {
+            if it.out.failure.is_some() {
+                return it.out;
+            }
+            if access_of(mode) != (true, true, false) {
                 it.out.label("restricted-access-mode");
             }
+        }
+        it.out.label(format!("handle-{}", mode_name(mode)));
+        if mode & MODE_DIRECT != 0 {
+            it.out.label("handle-o_direct");
+        }
+        if mode & MODE_CLONE != 0 {
+            it.out.label("handle-from-try_clone");
+        }
+        match ((mode >> MODE_CREATION_SHIFT) & 3, access_of(mode)) {
+            (1, _) => it.out.label("open-existing-without-create"),
+            (2, (_, true, false)) => it.out.label("open-create-truncate"),
+            (3, (_, w, a)) if w || a => it.out.label("open-create_new"),
+            _ => {}
         }
     }
     for i in 0..ninit {
@@ -1398,6 +1522,8 @@ fn act_strategy() -> BoxedStrategy<Act> {
             .prop_map(|(ring, k1, dt, k2)| Act::DrainSplit { ring, k1, dt, k2 }),
         1 => (file.clone(), off, len, any::<u8>())
             .prop_map(|(file, off, len, fill)| Act::ShimWrite { file, off, len, fill }),
+        1 => (file.clone(), prop_oneof![1 => Just(0u8), 8 => 1u8..=24], any::<u8>())
+            .prop_map(|(file, len, fill)| Act::ShimAppend { file, len, fill }),
         1 => file.clone().prop_map(|file| Act::ShimSync { file }),
         1 => file.clone().prop_map(|file| Act::Close { file }),
         1 => file.prop_map(|file| Act::Reopen { file }),
@@ -1427,14 +1553,27 @@ pub fn is_known(id: &str) -> bool {
         .any(|k| k == id)
 }
 
-/// bits 0-1: access mode, bit 2: O_DIRECT (see `open_mode`)
+/// A mode byte (see `Scenario::modes` / `open_mode`): every access-mode
+/// combination `OpenOptions` accepts, each optionally O_DIRECT, with the
+/// creation variants that are legal for it, optionally through `try_clone`.
 fn mode_strategy() -> BoxedStrategy<u8> {
     let direct = prop_oneof![4 => Just(0u8), 1 => Just(MODE_DIRECT)];
     if is_known("F-C18-1") {
         direct.boxed()
     } else {
-        (prop_oneof![5 => Just(0u8), 1 => Just(1u8), 1 => Just(2u8)], direct)
-            .prop_map(|(a, d)| a | d)
+        let access = prop_oneof![
+            6 => Just(0u8),               // read+write
+            1 => Just(1u8),               // read-only
+            1 => Just(2u8),               // write-only
+            2 => Just(3u8 | MODE_APPEND), // append-only
+            1 => Just(1u8 | MODE_APPEND), // read+append
+            1 => Just(2u8 | MODE_APPEND), // write+append
+            1 => Just(MODE_APPEND),       // read+write+append
+        ];
+        let creation = prop_oneof![6 => Just(0u8), 2 => Just(1u8), 1 => Just(2u8), 1 => Just(3u8)];
+        let clone = prop_oneof![5 => Just(0u8), 1 => Just(MODE_CLONE)];
+        (access, direct, creation, clone)
+            .prop_map(|(a, d, c, k)| a | d | (c << MODE_CREATION_SHIFT) | k)
             .boxed()
     }
 }
@@ -1545,6 +1684,9 @@ pub struct SimScenario {
     /// a side ring is created *before* the main ring (so it is the older one)
     #[serde(default)]
     pub elder: bool,
+    /// per file, the kind of handle used for the ring ops (as `Scenario::modes`)
+    #[serde(default)]
+    pub modes: Vec<u8>,
 }
 
 struct SOut {
@@ -1794,17 +1936,50 @@ impl SimProg {
                                 format!("sim mode: ud {ud} {:?}: ring {:?} twin {:?}", o.kind, arena[*buf], tb),
                             ),
                             Ok(_) => {}
+                            Err(e) if e.kind() == std::io::ErrorKind::PermissionDenied => {
+                                sh.label("sim-read-on-handle-without-read-access");
+                                if res >= 0 || arena[*buf].iter().any(|b| *b != SENTINEL) {
+                                    sh.fail(
+                                        "differential: ring read succeeded on a handle not opened for reading",
+                                        format!("sim mode: ud {ud} {:?}: cqe {res}, read_at {e}; buffer {:?}", o.kind, arena[*buf]),
+                                    );
+                                } else if res != EBADF {
+                                    sh.fail(
+                                        "differential: access-mode failure did not complete with -EBADF",
+                                        format!("sim mode: ud {ud} {:?}: cqe {res}, read_at {e}", o.kind),
+                                    );
+                                }
+                            }
                             Err(e) => sh.fail("harness: twin read_at failed", format!("{e}")),
                         }
                     }
                     Kind::Write { slot, off, buf, .. } => {
                         let r = with_twin(&self.twin, || self.tw[*slot].write_at(&arena[*buf], *off));
+                        let mode = self.sc.modes.get(*slot).copied().unwrap_or(0);
                         match r {
                             Ok(n) if n as i32 != res => sh.fail(
                                 "differential: write result differs from write_at",
-                                format!("sim mode: ud {ud} {:?}: cqe {res}, write_at {n}", o.kind),
+                                format!("sim mode: ud {ud} {:?} ({} handle): cqe {res}, write_at {n}", o.kind, mode_name(mode)),
                             ),
-                            Ok(_) => {}
+                            Ok(_) => {
+                                if mode & MODE_APPEND != 0 {
+                                    sh.label("sim-ring-write-on-append-mode-handle");
+                                }
+                            }
+                            Err(e) if e.kind() == std::io::ErrorKind::PermissionDenied => {
+                                sh.label("sim-write-on-handle-without-write-access");
+                                if res >= 0 {
+                                    sh.fail(
+                                        "differential: ring write succeeded on a handle not opened for writing",
+                                        format!("sim mode: ud {ud} {:?}: cqe {res}, write_at {e}", o.kind),
+                                    );
+                                } else if res != EBADF {
+                                    sh.fail(
+                                        "differential: access-mode failure did not complete with -EBADF",
+                                        format!("sim mode: ud {ud} {:?}: cqe {res}, write_at {e}", o.kind),
+                                    );
+                                }
+                            }
                             Err(e) => sh.fail("harness: twin write_at failed", format!("{e}")),
                         }
                     }
@@ -1897,6 +2072,20 @@ async fn sim_program(
                 real[i].sync_all()?;
                 sfs::sync_dir("/")?;
                 with_twin(&twin, || tw[i].sync_all().and_then(|_| sfs::sync_dir("/")))?;
+            }
+        }
+        // continue with the handle kind the scenario asks for
+        let mode = sc.modes.get(i).copied().unwrap_or(0);
+        if mode != 0 {
+            drop(real.pop());
+            with_twin(&twin, || drop(tw.pop()));
+            real.push(open_mode(&path, mode)?);
+            tw.push(with_twin(&twin, || open_mode(&path, mode))?);
+            if access_of(mode) != (true, true, false) {
+                sh.label("sim-restricted-access-mode");
+            }
+            if mode & MODE_APPEND != 0 {
+                sh.label("sim-append-mode-handle");
             }
         }
     }
@@ -2231,9 +2420,9 @@ pub fn sim_strategy() -> BoxedStrategy<SimScenario> {
         proptest::collection::vec(round_strategy(), 1..6),
         proptest::collection::vec(round_strategy(), 0..4),
         prop_oneof![1 => Just(None), 3 => (1u16..=8).prop_map(Some)],
-        (0u8..=3, any::<bool>(), any::<bool>()),
+        (0u8..=3, any::<bool>(), any::<bool>(), proptest::collection::vec(mode_strategy(), 2..=2)),
     )
-        .prop_map(|(seed, tick_ms, lat, cache, depth, files, before, after, crash_at, (down_steps, concurrent, elder))| SimScenario {
+        .prop_map(|(seed, tick_ms, lat, cache, depth, files, before, after, crash_at, (down_steps, concurrent, elder, modes))| SimScenario {
             seed,
             tick_ms,
             lat,
@@ -2246,6 +2435,7 @@ pub fn sim_strategy() -> BoxedStrategy<SimScenario> {
             down_steps,
             concurrent,
             elder,
+            modes,
         })
         .boxed()
 }
@@ -2262,11 +2452,12 @@ fn check(tier: Tier, seed: u64) -> i32 {
         ctx.random("sim", tier.pick(6_000, 60_000), &|| sim_strategy(), &run_sim);
     }
     ctx.finish(
-        "direct: random histories over 1-4 ring slots (1-4 rings from the start plus empty slots; requested depth 1-8; rings are dropped, created into empty slots and churned: drop one, then create 1-3) and 1-3 files (plain or O_DIRECT handles; read-only / write-only handles too unless F-C18-1 is listed as known) of one Fs driven directly (harness owns `now`): push read/write/fsync/cancel with optional (un)supported flags, pushes on a full queue, submit (three API variants), clock advances hitting the latency boundaries exactly (min-1, min, max, 99/100 ns), sync + full/partial/late drains (also across a clock advance and without sync), interleaved std-shim writes/syncs, closing/reopening files with ops in flight, dropping/recreating rings (ring fds of simultaneously live rings must be pairwise distinct), crashes (Fs::crash + IoUringHostState::crash, stale ring handles kept and polled); io latency none/fixed/ranged, page cache on/off, optional capacity (ENOSPC). sim: one turmoil host, tick 1-3 ms, optional side rings created before / churned next to the main ring, rounds of push/submit/drain through AsyncFd::readable (single task, or a separate drainer task that also waits on an idle ring), Sim::crash at a generated step + Sim::bounce, second program after the bounce. Every CQE is checked for exactly-once, visibility >= submit + minimum latency, result/buffer equality with the synchronous twin in CQE order; at the end all submitted entries must have completed, cancelled read buffers must be untouched, file contents (and the contents surviving a crash) must equal the twin. Non-trivial = (>= 2 entries in flight at once and at least one CQE yielded before an earlier-submitted one) or a submitted cancel or a crash with entries in flight. Distinct by scenario hash.",
+        "direct: random histories over 1-4 ring slots (1-4 rings from the start plus empty slots; requested depth 1-8; rings are dropped, created into empty slots and churned: drop one, then create 1-3) and 1-3 files (each with its own kind of handle, unless F-C18-1 is listed as known: any access-mode combination OpenOptions accepts — read+write, read-only, write-only, append-only, read+append, write+append, read+write+append — plain or O_DIRECT, opened with create / without create on an existing file / create+truncate / create_new on a freed name where the access mode allows it, directly or as a try_clone of the opened handle whose original is closed; the twin Fs gets an identically opened handle) of one Fs driven directly (harness owns `now`): push read/write/fsync/cancel with optional (un)supported flags, pushes on a full queue, submit (three API variants), clock advances hitting the latency boundaries exactly (min-1, min, max, 99/100 ns), sync + full/partial/late drains (also across a clock advance and without sync), interleaved std-shim writes (write_at, and std::io::Write::write = append on append-mode handles) and syncs, closing/reopening files with ops in flight, dropping/recreating rings (ring fds of simultaneously live rings must be pairwise distinct), crashes (Fs::crash + IoUringHostState::crash, stale ring handles kept and polled); io latency none/fixed/ranged, page cache on/off, optional capacity (ENOSPC). sim: one turmoil host, tick 1-3 ms, 1-2 files with the same kinds of handle as in direct, optional side rings created before / churned next to the main ring, rounds of push/submit/drain through AsyncFd::readable (single task, or a separate drainer task that also waits on an idle ring), Sim::crash at a generated step + Sim::bounce, second program after the bounce. Every CQE is checked for exactly-once, visibility >= submit + minimum latency, result/buffer equality with the synchronous twin in CQE order; at the end all submitted entries must have completed, cancelled read buffers must be untouched, file contents (and the contents surviving a crash) must equal the twin. Non-trivial = (>= 2 entries in flight at once and at least one CQE yielded before an earlier-submitted one) or a submitted cancel or a crash with entries in flight. Distinct by scenario hash.",
         &[
             "side effects are compared in CQE yield order, which the crate documents as the order in which effects are applied (PendingApply / CompletionQueue rustdoc)",
             "no fault injection (io_error/short_read/corruption/sync probabilities are 0) and atomic writes (no block_size): these draw from the Fs RNG, which the twin cannot share",
-            "while F-C18-1 is listed as known every generated handle is opened read+write; otherwise read-only / write-only handles are generated as well and a ring op that the synchronous API refuses with PermissionDenied must complete with -EBADF (sim.rs exec_read/exec_write) without touching buffer or file; O_DIRECT handles use alignment 1",
+            "while F-C18-1 is listed as known every generated handle is opened read+write; otherwise every access-mode combination is generated and a ring op that the synchronous API refuses with PermissionDenied on the identically opened twin handle must complete with -EBADF (sim.rs exec_read/exec_write) without touching buffer or file, while one it accepts must complete with the same byte count and leave the same file contents; O_DIRECT handles use alignment 1",
+            "a ring Write/Read carries an explicit offset; on an append-mode handle it is compared with FileExt::write_at/read_at of the crate's own synchronous shim at that offset on an append-mode twin handle (which, in this simulation, writes at the given offset); nothing is assumed about Linux pwrite-on-O_APPEND semantics, and the 'current position' offset (-1) is not generated",
             "entries of a dropped ring are exempt from exactly-once (nothing can observe them); they must not surface on another ring or change any file",
             "a read may be as fast as 100 ns only if its page was touched by an earlier submitted read/write on a non-O_DIRECT handle (page cache on); everything else needs the configured minimum",
             "cancel results follow the crate's rustdoc: target queued-or-matured-but-undrained => target -ECANCELED and cancel 0, otherwise cancel -ENOENT; an op whose file was closed completes with -EBADF",
